@@ -101,7 +101,7 @@ def first_paragraphs(path, n=600):
 
 def markdown():
     """the catches table for DESIGN.md section 8"""
-    out = ["| seeded change | file(s) touched | caught by (quick tier) | first report |", "|---|---|---|---|"]
+    out = ["| seeded change | what it does | file(s) | caught by (quick tier) | first report |", "|---|---|---|---|---|"]
     for n in sorted(os.listdir(ROOT)):
         m = load(n)
         d = f"{ROOT}/{n}"
@@ -110,7 +110,17 @@ def markdown():
         caught = ", ".join(f"{k}" for k, v in det.items() if v["exit"] == 1) or "—"
         first = next((v["first"] for v in det.values() if v["exit"] == 1), "")
         first = first.replace("|", "\\|")[:150]
-        out.append(f"| {n} | {', '.join(f.split('/')[-1] for f in files)} | {caught} | {first} |")
+        title = ""
+        try:
+            for l in open(f"{d}/notes.md"):
+                if l.startswith("#"):
+                    title = re.sub(r"^#+\s*", "", l).strip()
+                    title = re.sub(r"^(Seeded|C\d\d seeded) (defect|change)[^—–:-]*(—|–|--|-|:)\s*", "", title)
+                    break
+        except Exception:
+            pass
+        title = title.replace("|", "\\|")[:140]
+        out.append(f"| {n} | {title} | {', '.join(f.split('/')[-1] for f in files)} | {caught} | {first} |")
     return "\n".join(out)
 
 def table():
